@@ -389,9 +389,156 @@ def analyse_registry(src):
     return out
 
 
+PAD_TEMPLATES = {
+    "PADLEFT": '''
+def PADLEFT(self, args):
+    v0 = args[0]
+    try:
+        v1 = min(int(args[1]), 0)
+    except ValueError:
+        return v0
+    v2 = args[2] or "0"
+    return "".join([v2[v3 % len(v2)] for v3 in range(v1 - len(v0))]) + v0
+''',
+    "PADRIGHT": '''
+def PADRIGHT(self, args):
+    v0 = args[0]
+    try:
+        v1 = min(int(args[1]), 0)
+    except ValueError:
+        return v0
+    v2 = args[2] or "0"
+    return v0 + "".join([v2[v3 % len(v2)] for v3 in range(v1 - len(v0))])
+''',
+}
+
+
+class _Canon(ast.NodeTransformer):
+    """alpha-renames the local variables of one function in order of first binding (parameters keep their names)"""
+
+    def __init__(self, params):
+        self.params = set(params)
+        self.names = {}
+
+    def visit_Name(self, node):
+        if node.id in self.params or (isinstance(node.ctx, ast.Load) and node.id not in self.names):
+            return node
+        if node.id not in self.names:
+            self.names[node.id] = "v%d" % len(self.names)
+        return ast.copy_location(ast.Name(id=self.names[node.id], ctx=node.ctx), node)
+
+
+def _canon_fn(fdef):
+    f = ast.parse(ast.unparse(fdef)).body[0]          # private copy, comments and layout gone
+    f.decorator_list = []
+    f.returns = None
+    if f.body and _is_docstring(f.body[0]):
+        f.body = f.body[1:]
+    for a in f.args.args:
+        a.annotation = None
+    c = _Canon([a.arg for a in f.args.args])
+    # bind in source order: statements are visited top-down, targets before uses matter only for naming
+    for st in f.body:
+        for n in ast.walk(st):
+            if isinstance(n, ast.Name) and isinstance(n.ctx, ast.Store):
+                c.visit_Name(n)
+    return c.visit(f)
+
+
+def analyse_pads(src):
+    """PADLEFT / PADRIGHT: the ONLY path from the width written in the wikitext to the number of fill characters is
+           width = min(int(args[1]), CAP)   under   except ValueError: return args[0]
+    (what coq/C03/Magics.v `pad_count`/`padleft`/`padright` model: w = None is the ValueError branch).  The whole function
+    body must be the known one up to local variable names and the value of CAP; any other shape (a helper, a second
+    conversion such as float(), another exception list, an uncapped branch) raises.  -> {"PADLEFT": cap, "PADRIGHT": cap}"""
+    path = os.path.join(src, MAGICS)
+    tree = ast.parse(open(path, encoding="utf8").read(), path)
+    classes = {n.name: n for n in tree.body if isinstance(n, ast.ClassDef)}
+    caps = {}
+    for fname, templ in PAD_TEMPLATES.items():
+        defs = [(c, f) for c in classes.values() for f in c.body if isinstance(f, ast.FunctionDef) and f.name == fname]
+        if len(defs) != 1:
+            _fail(tree, "%s: expected exactly one definition, found %d" % (fname, len(defs)))
+        cdef, fdef = defs[0]
+        if fdef.decorator_list:
+            _fail(fdef, "%s is decorated" % fname)
+        got = _canon_fn(fdef)
+        want = _canon_fn(ast.parse(templ).body[0])
+        mins = [n for n in ast.walk(got) if isinstance(n, ast.Call) and isinstance(n.func, ast.Name) and n.func.id == "min"]
+        if len(mins) != 1 or len(mins[0].args) != 2 or not (isinstance(mins[0].args[1], ast.Constant)
+                                                                and type(mins[0].args[1].value) is int):
+            _fail(fdef, "%s: width parsing changed: expected exactly one min(int(args[1]), <int cap>), found %s"
+                  % (fname, [ast.unparse(m) for m in mins]))
+        cap = mins[0].args[1].value
+        mins[0].args[1] = ast.Constant(value=0)
+        if _dump(got) != _dump(want):
+            calls = sorted({ast.unparse(n.func) for n in ast.walk(got) if isinstance(n, ast.Call)})
+            _fail(fdef, "%s: body is not the modelled one (width = min(int(args[1]), CAP) under `except ValueError: return args[0]`, "
+                        "fill = cycle of args[2] or '0' over range(width - len(args[0]))); calls now made: %s" % (fname, calls))
+        caps[fname] = cap
+    return caps
+
+
+BROAD = {"Exception", "BaseException"}
+
+
+def _broad_handler(h):
+    if h.type is None:
+        return True
+    ts = h.type.elts if isinstance(h.type, ast.Tuple) else [h.type]
+    return any((isinstance(t, ast.Name) and t.id in BROAD) or (isinstance(t, ast.Attribute) and t.attr in BROAD) for t in ts)
+
+
+def analyse_exception_discipline(src):
+    """TemplateRecursion / MemoryLimitError raised while a lazily expanded argument is flattened (ArgumentList.__getitem__/get,
+    evaluate.pyx:82-104) must pass through the magic call unchanged (coq/C03/Model.v run_magic: `Err x => Err x`): that is what
+    makes the work of a cyclic universe linear in the recursion limit.  Statically:
+      * MagicResolver.__call__ does not wrap `method_to_invoke(args)` in a try statement;
+      * no method of the mixin classes fetches from its argument-list parameter inside a try statement with a handler for
+        Exception / BaseException / everything.
+    -> list of problems (empty = discipline holds)"""
+    path = os.path.join(src, MAGICS)
+    tree = ast.parse(open(path, encoding="utf8").read(), path)
+    classes = {n.name: n for n in tree.body if isinstance(n, ast.ClassDef)}
+    problems = []
+    mr = classes.get("MagicResolver")
+    if mr is None:
+        return ["class MagicResolver not found"]
+    for f in mr.body:
+        if isinstance(f, ast.FunctionDef) and f.name == "__call__":
+            for t in [n for n in ast.walk(f) if isinstance(n, ast.Try)]:
+                inside = [c for st in t.body for c in ast.walk(st)
+                          if isinstance(c, ast.Call) and isinstance(c.func, ast.Name) and c.func.id == "method_to_invoke"]
+                if inside:
+                    problems.append("%s:%d: MagicResolver.__call__ wraps method_to_invoke(args) in try/except %s: exceptions raised while "
+                                    "an argument is expanded (TemplateRecursion) no longer pass through the call"
+                                    % (MAGICS, t.lineno, [ast.unparse(h.type) if h.type else "<bare>" for h in t.handlers]))
+    for b in [x.id for x in mr.bases if isinstance(x, ast.Name) and x.id in classes]:
+        for f in classes[b].body:
+            if not isinstance(f, ast.FunctionDef) or len(f.args.args) < 2:
+                continue
+            param = f.args.args[1].arg
+            for t in [n for n in ast.walk(f) if isinstance(n, ast.Try)]:
+                if not any(_broad_handler(h) for h in t.handlers):
+                    continue
+                fetch = [n for st in t.body for n in ast.walk(st)
+                         if (isinstance(n, ast.Subscript) and isinstance(n.value, ast.Name) and n.value.id == param)
+                         or (isinstance(n, ast.Call) and isinstance(n.func, ast.Attribute) and isinstance(n.func.value, ast.Name)
+                             and n.func.value.id == param)]
+                if fetch:
+                    problems.append("%s:%d: %s.%s fetches %s inside try/except Exception: TemplateRecursion raised while that argument "
+                                    "is expanded is swallowed" % (MAGICS, t.lineno, b, f.name, ast.unparse(fetch[0])))
+    return problems
+
+
 def analyse(src):
     res = analyse_magics(src)
+    res["discipline"] = analyse_exception_discipline(src)
     res["registry"] = analyse_registry(src)
+    try:
+        res["pads"] = analyse_pads(src)
+    except Unsupported as e:      # reported by generate() (fail-closed); the search must still be able to enumerate the names
+        res["pads"] = {"error": str(e)}
     return res
 
 
@@ -408,7 +555,7 @@ def _coq_sig(s):
 def render(info):
     L = []
     L.append("(* GENERATED by vt/gen/c03_magics.py from /repo/src/%s and %s on every run - do not edit. *)" % (MAGICS, MAGIC_NODES))
-    L.append("From Coq Require Import List NArith Bool.")
+    L.append("From Coq Require Import List NArith ZArith Bool.")
     L.append("From MW Require Import Common.Str C03.Magics.")
     L.append("Import ListNotations.")
     L.append("")
@@ -432,6 +579,15 @@ def render(info):
     L.append(";\n".join(rows))
     L.append("].")
     L.append("")
+    L.append("(* PADLEFT / PADRIGHT (StringMagic): the only path from the width written in the wikitext to the fill count is")
+    L.append("   width = min(int(args[1]), CAP) under `except ValueError: return args[0]` (whole body pinned by the translator) *)")
+    L.append("Definition gen_pad_cap_left : Z := %d%%Z." % info["pads"]["PADLEFT"])
+    L.append("Definition gen_pad_cap_right : Z := %d%%Z." % info["pads"]["PADRIGHT"])
+    L.append("")
+    L.append("(* exception-propagation discipline (vt/gen/c03_magics.py analyse_exception_discipline): method_to_invoke(args) is not")
+    L.append("   inside a try statement and no magic fetches an argument inside `try .. except Exception`: number of violations *)")
+    L.append("Definition gen_discipline_violations : nat := %d." % len(info["discipline"]))
+    L.append("")
     L.append("Definition dummy_names : list str := [%s]." % "; ".join(core.coq_str(n) for n in info["dummies"]))
     L.append("")
     L.append("Definition magic_registry : list regentry := [")
@@ -447,5 +603,9 @@ def render(info):
 
 def generate(src):
     info = analyse(src)
+    if "error" in info["pads"]:
+        raise Unsupported(info["pads"]["error"])
+    if info["discipline"]:
+        raise Unsupported("exception-propagation discipline of magic calls broken: " + " || ".join(info["discipline"][:4]))
     core.write_if_changed(os.path.join(core.COQ, "C03", "Gen_magics.v"), render(info))
     return info
